@@ -13,6 +13,8 @@ func init() { register("C12", checkC12) }
 
 func checkC12(c *Ctx) {
 	r := c.R
+	r.Rule("R06.3", "(shared with C06) a non-terminating call returns and a terminating record is written first: the tag width setter stores no width outside the tag tables (an index out of range inside Level.ShortTag is a panic in every colored record)")
+	r.Rule("R02.3", "(shared with C02) the record is written first and whole: the blank-line shortcut is taken for lvl == AlwaysLevel only, never for a Panic/Fatal record")
 	r.Rule("R13.1", "(shared with C13) record first, on every destination of the set: the fan-out has its natural exit only")
 	r.Rule("R01.3", "(shared with C01) a Panic/Fatal call terminates exactly when it is admitted by the logger's own level: Entry.Level returns the receiver's own level field")
 	r.Rule("R10.3", "(shared with C10) creation copies only the documented settings")
@@ -41,6 +43,8 @@ func checkC12(c *Ctx) {
 			continue
 		}
 		c12Decision(c, p, m)
+		noRecoverOnSpine(c, p, m, "R12.1")
+		tagWidthSetter(c, p)
 		c12Others(c, p, m)
 		wrapperForwarding(c, p, "R12.2")
 		c12Mapping(c, p, m)
@@ -50,10 +54,12 @@ func checkC12(c *Ctx) {
 		testingPredicate(c, p)
 		c03Frames(c, p, m)
 		c03Routing(c, p, m)
+		c02Newline(c, p, m)
 		c13Fanout(c, p, m)
 		c01Decision(c, p, m)
 		c10Creation(c, p, m)
 		flagLoopsTraversal(c, p, "R12.9")
+		flagsRestoreIsExact(c, p, "R12.9")
 		c01DefaultKinds(c, p, m, "R01.8")
 	}
 	c.Floor["R12.1"] = 16
